@@ -7,6 +7,7 @@ import functools
 import json
 import fractions
 import math
+import os
 import random
 
 from .. import core, refeval, refexpr, refval
@@ -28,8 +29,10 @@ TRUTH_POOL = [[], {}, [0], {'a': 1}, None, 0, '', 'x', 0.0, False, True, DT(2020
 def plan(tier, seed):
     n = 2500 if tier == 'quick' else 40000
     specs = [{'part': 'relational', 'n': n, 'shard': sh} for sh in range(12)]
-    for sh in range(4):
-        specs.append({'part': 'csv', 'n': 1500 if tier == 'quick' else 30000, 'shard': sh, 'env': {'TZ': ['UTC', 'America/New_York', 'Asia/Kolkata', 'Pacific/Chatham'][sh]}})
+    # (the last two zones switch to summer time AT local midnight: the day of the switch has no 00:00 on the wall clock)
+    for sh in range(6):
+        specs.append({'part': 'csv', 'n': (1500 if tier == 'quick' else 30000) // (1 if sh < 4 else 3), 'shard': sh,
+                      'env': {'TZ': ['UTC', 'America/New_York', 'Asia/Kolkata', 'Pacific/Chatham', 'America/Havana', 'XST5XDT,M3.2.0/0,M11.1.0/1'][sh]}})
     return specs
 
 
@@ -547,6 +550,8 @@ def one_csv(rnd, acc, api):
             ok = (h is None) if w is None else (veq(w, h) if not isinstance(w, datetime.datetime) else (isinstance(h, datetime.datetime) and refval.ndt(h) == w))
             if w == '' and t == 'string':
                 ok = h == '' or h is None
+            if isinstance(w, datetime.datetime) and w.tzinfo is None and datetime.datetime.fromtimestamp(w.timestamp()) != w:
+                ok = True  # a wall-clock time the zone of the process skips (summer time starts): no instant to read back
             if not ok:
                 acc.violation('csv:typed-value', f'column {name} ({t}): wrote {w!r} as {csv_cell(w)!r}, read back {h!r}\n{text}', case)
                 return
@@ -595,6 +600,21 @@ def run_shard(spec, acc):
                 if not ok:
                     acc.violation('csv:date-like-text', f"dataParseCSV('d,n','{t},1','{second},2') = {got!r:.300}; {logs[-1:]!r:.300}", {'csv': f'd,n\n{t},1\n{second},2'})
                     break
+
+
+        # a date-only cell is the local midnight of that day - also on the days on which the zone of the process changes its offset
+        for t in ('2024-03-10', '2024-11-03', '2023-03-12', '2024-03-31', '2024-10-27', '2024-04-07', '2024-09-29', '2024-01-01', '2024-06-15'):
+            try:
+                got, logs = run_script(api, f"return dataParseCSV('d,n', '{t},1', '2024-02-02,2')")
+            except Exception as exc:  # pylint: disable=broad-except
+                got, logs = exc, []
+            acc.case(('directed-date-only', t), True)
+            acc.count('date_only_cells_on_switch_days')
+            y, mo, d = (int(x) for x in t.split('-'))
+            dd = got[0].get('d') if isinstance(got, list) and got and isinstance(got[0], dict) else None
+            if not (isinstance(dd, datetime.date) and (dd.year, dd.month, dd.day) == (y, mo, d) and (not isinstance(dd, datetime.datetime) or (dd.hour, dd.minute, dd.second, dd.tzinfo) == (0, 0, 0, None))):
+                acc.violation('csv:typed-value', f"date-only cell {t!r} read back as {dd!r} (zone {os.environ.get('TZ')!r})", {'csv': f'd,n\n{t},1\n2024-02-02,2'})
+                break
 
 
 def replay(spec, acc):
